@@ -719,12 +719,29 @@ theorem ssePairSearch_spec (len : Nat) : ∀ (l : List Nat) (acc : Nat × Nat),
       · left; exact h
       · right; exact ⟨List.mem_cons_of_mem _ h1, List.mem_cons_of_mem _ h2, h3⟩
 
-theorem sseMixedRadix_ok (F : Nat) (lf rf : PrimeFactors)
-    (ha : ∃ a, sseWithFactors F lf.n lf = .ok a ∧ a.len = lf.n)
-    (hb : ∃ b, sseWithFactors F rf.n rf = .ok b ∧ b.len = rf.n) :
-    ∃ r, sseMixedRadix (F + 1) lf rf = .ok r ∧ r.len = lf.n * rf.n := by
-  obtain ⟨a, ha, hal⟩ := ha
-  obtain ⟨b, hb, hbl⟩ := hb
+/-- the SSE analogue of `ScalarClosed` -/
+structure SseClosed (Q : Recipe → Prop) : Prop where
+  dft : Q (.dft 0)
+  bfly : ∀ b r, sseButterfly b = some r → Q r
+  gtSmall : ∀ a b, Q a → Q b → a.len < 33 → b.len < 33 → Nat.gcd a.len b.len = 1 → Q (.goodThomasSmall a b)
+  mrSmall : ∀ a b, Q a → Q b → a.len < 33 → b.len < 33 → Q (.mixedRadixSmall a b)
+  mixedRadix : ∀ a b, Q a → Q b → 33 ≤ a.len * b.len → Q (.mixedRadix a b)
+  raders : ∀ i, Q i → Nat.Prime (i.len + 1) → 33 ≤ i.len + 1 → Q (.raders i)
+  bluesteins : ∀ n i, Q i → 33 ≤ n → 2 * n - 1 ≤ i.len → Q (.bluesteins n i)
+  sseRadix4 : ∀ k b, b ∈ [12, 16, 24, 32] → Q (.sseRadix4 k (.bfly b))
+
+theorem SseClosed.trivial : SseClosed (fun _ => True) := by
+  constructor <;> intros <;> trivial
+
+theorem sse_prime_lt_33_bfly : ∀ n, n < 33 → Nat.Prime n → (sseButterfly n).isSome = true := by decide
+
+theorem sseMixedRadix_ok (Q : Recipe → Prop) (hQ : SseClosed Q) (F : Nat) (lf rf : PrimeFactors)
+    (hlp : 0 < lf.n) (hrp : 0 < rf.n)
+    (ha : ∃ a, sseWithFactors F lf.n lf = .ok a ∧ a.len = lf.n ∧ Q a)
+    (hb : ∃ b, sseWithFactors F rf.n rf = .ok b ∧ b.len = rf.n ∧ Q b) :
+    ∃ r, sseMixedRadix (F + 1) lf rf = .ok r ∧ r.len = lf.n * rf.n ∧ Q r := by
+  obtain ⟨a, ha, hal, hqa⟩ := ha
+  obtain ⟨b, hb, hbl, hqb⟩ := hb
   rw [sseMixedRadix]
   change sseWithFactors F lf.product lf = .ok a at ha
   change sseWithFactors F rf.product rf = .ok b at hb
@@ -732,10 +749,22 @@ theorem sseMixedRadix_ok (F : Nat) (lf rf : PrimeFactors)
   simp only
   by_cases c1 : lf.product < 33 ∧ rf.product < 33
   · rw [if_pos c1]
+    have ha33 : a.len < 33 := by rw [hal]; exact c1.1
+    have hb33 : b.len < 33 := by rw [hbl]; exact c1.2
     by_cases c2 : lf.product.gcd rf.product = 1
-    · rw [if_pos c2]; exact ⟨_, rfl, by simp [Recipe.len, hal, hbl]⟩
-    · rw [if_neg c2]; exact ⟨_, rfl, by simp [Recipe.len, hal, hbl]⟩
-  · rw [if_neg c1]; exact ⟨_, rfl, by simp [Recipe.len, hal, hbl]⟩
+    · rw [if_pos c2]
+      exact ⟨_, rfl, by simp [Recipe.len, hal, hbl], hQ.gtSmall a b hqa hqb ha33 hb33 (by rw [hal, hbl]; exact c2)⟩
+    · rw [if_neg c2]; exact ⟨_, rfl, by simp [Recipe.len, hal, hbl], hQ.mrSmall a b hqa hqb ha33 hb33⟩
+  · rw [if_neg c1]
+    refine ⟨_, rfl, by simp [Recipe.len, hal, hbl], hQ.mixedRadix a b hqa hqb ?_⟩
+    rw [hal, hbl]
+    have c1' : ¬ (lf.n < 33 ∧ rf.n < 33) := c1
+    rcases Nat.lt_or_ge lf.n 33 with hlt | hge
+    · have : 33 ≤ rf.n := by omega
+      calc 33 ≤ 1 * 33 := by decide
+        _ ≤ lf.n * rf.n := Nat.mul_le_mul hlp this
+    · calc 33 ≤ 33 * 1 := by decide
+        _ ≤ lf.n * rf.n := Nat.mul_le_mul hge hrp
 
 /-- base length of `design_radix4` (verbatim from the model) -/
 def sseRadix4Base (p2 p3 : Nat) : Nat :=
@@ -765,21 +794,23 @@ theorem sseRadix4_eq (fuel : Nat) (f : PrimeFactors) :
       else sseRadix4Tail fuel f.product (sseRadix4Base f.p2 f.p3) := by
   rw [sseRadix4]; rfl
 
-theorem sseRadix4Tail_ok (F n base m : Nat) (r : Recipe) (hn : n = base * 2 ^ (2 * m))
-    (hr : sseButterfly base = some r) :
-    ∃ r, sseRadix4Tail (F + 2) n base = .ok r ∧ r.len = n := by
-  have hb := (sseButterfly_spec base r hr).2
+theorem sseRadix4Tail_ok (Q : Recipe → Prop) (hQ : SseClosed Q) (F n base m : Nat)
+    (hn : n = base * 2 ^ (2 * m)) (hmem : base ∈ [12, 16, 24, 32])
+    (hr : sseButterfly base = some (.bfly base)) :
+    ∃ r, sseRadix4Tail (F + 2) n base = .ok r ∧ r.len = n ∧ Q r := by
+  have hb := (sseButterfly_spec base _ hr).2
   have hdiv : n / base = 2 ^ (2 * m) := by rw [hn, Nat.mul_div_cancel_left _ hb]
   unfold sseRadix4Tail
   simp only
-  rw [hdiv, isPowerOfTwo_pow, trailingZeros_pow, sseForLen_bfly F base r hr]
+  rw [hdiv, isPowerOfTwo_pow, trailingZeros_pow, sseForLen_bfly F base _ hr]
   simp only [not_true_eq_false, if_false, Nat.mul_mod_right, ne_eq]
-  refine ⟨_, rfl, ?_⟩
-  simp only [Recipe.len, (sseButterfly_spec base r hr).1]
+  refine ⟨_, rfl, ?_, hQ.sseRadix4 _ base hmem⟩
+  simp only [Recipe.len]
   rw [hn, Nat.mul_div_cancel_left _ (by omega : 0 < 2)]
 
-theorem sseRadix4_ok (F : Nat) (f : PrimeFactors) (h : f.WF) (hnil : f.others = []) (hp3 : f.p3 < 2)
-    (hp2 : 6 ≤ f.p2) : ∃ r, sseRadix4 (F + 3) f = .ok r ∧ r.len = f.n := by
+theorem sseRadix4_ok (Q : Recipe → Prop) (hQ : SseClosed Q) (F : Nat) (f : PrimeFactors) (h : f.WF)
+    (hnil : f.others = []) (hp3 : f.p3 < 2)
+    (hp2 : 6 ≤ f.p2) : ∃ r, sseRadix4 (F + 3) f = .ok r ∧ r.len = f.n ∧ Q r := by
   have hpe := h.prod_eq
   rcases f with ⟨others, n, p2, p3, total, distinct⟩
   simp only at hnil hp3 hp2 hpe
@@ -795,15 +826,15 @@ theorem sseRadix4_ok (F : Nat) (f : PrimeFactors) (h : f.WF) (hnil : f.others = 
     · have hb : sseRadix4Base (q + 6) 0 = 32 :=
         (rfl : sseRadix4Base (q + 6) 0 = if (q + 6) % 2 = 1 then 32 else 16).trans (if_pos codd)
       rw [hb]
-      exact sseRadix4Tail_ok F n 32 ((q + 1) / 2) _ (by
+      refine sseRadix4Tail_ok Q hQ F n 32 ((q + 1) / 2) (by
         rw [hpe]; have : (32 : Nat) = 2 ^ 5 := by norm_num
-        rw [this, ← pow_add]; congr 1; omega) rfl
+        rw [this, ← pow_add]; congr 1; omega) (by decide) rfl
     · have hb : sseRadix4Base (q + 6) 0 = 16 :=
         (rfl : sseRadix4Base (q + 6) 0 = if (q + 6) % 2 = 1 then 32 else 16).trans (if_neg codd)
       rw [hb]
-      exact sseRadix4Tail_ok F n 16 ((q + 2) / 2) _ (by
+      refine sseRadix4Tail_ok Q hQ F n 16 ((q + 2) / 2) (by
         rw [hpe]; have : (16 : Nat) = 2 ^ 4 := by norm_num
-        rw [this, ← pow_add]; congr 1; omega) rfl
+        rw [this, ← pow_add]; congr 1; omega) (by decide) rfl
   · have c31 : p3 = 1 := by omega
     subst c31
     simp only [pow_one] at hpe
@@ -811,30 +842,31 @@ theorem sseRadix4_ok (F : Nat) (f : PrimeFactors) (h : f.WF) (hnil : f.others = 
     · have hb : sseRadix4Base (q + 6) 1 = 24 :=
         (rfl : sseRadix4Base (q + 6) 1 = if (q + 6) % 2 = 1 then 24 else 12).trans (if_pos codd)
       rw [hb]
-      exact sseRadix4Tail_ok F n 24 ((q + 3) / 2) _ (by
+      refine sseRadix4Tail_ok Q hQ F n 24 ((q + 3) / 2) (by
         rw [hpe]; have : (24 : Nat) = 2 ^ 3 * 3 := by norm_num
         have e : q + 6 = 3 + 2 * ((q + 3) / 2) := by omega
-        rw [this, e, pow_add]; ring) rfl
+        rw [this, e, pow_add]; ring) (by decide) rfl
     · have hb : sseRadix4Base (q + 6) 1 = 12 :=
         (rfl : sseRadix4Base (q + 6) 1 = if (q + 6) % 2 = 1 then 24 else 12).trans (if_neg codd)
       rw [hb]
-      exact sseRadix4Tail_ok F n 12 ((q + 4) / 2) _ (by
+      refine sseRadix4Tail_ok Q hQ F n 12 ((q + 4) / 2) (by
         rw [hpe]; have : (12 : Nat) = 2 ^ 2 * 3 := by norm_num
         have e : q + 6 = 2 + 2 * ((q + 4) / 2) := by omega
-        rw [this, e, pow_add]; ring) rfl
+        rw [this, e, pow_add]; ring) (by decide) rfl
 
-theorem sseWithFactors_step (F n : Nat) (f : PrimeFactors) (h : f.WF) (hn : f.n = n) (h1 : 1 ≤ n)
-    (hPrime : f.isPrime = true → sseButterfly n = none → ∃ r, ssePrime (F + 3) n = .ok r ∧ r.len = n)
+theorem sseWithFactors_step (Q : Recipe → Prop) (hQ : SseClosed Q) (F n : Nat) (f : PrimeFactors) (h : f.WF)
+    (hn : f.n = n) (h1 : 1 ≤ n)
+    (hPrime : f.isPrime = true → sseButterfly n = none → ∃ r, ssePrime (F + 3) n = .ok r ∧ r.len = n ∧ Q r)
     (hSub : sseButterfly n = none →
        (6 ≤ f.p2 → ¬ (f.others.isEmpty = true ∧ f.p3 < 2)) →
        (f.p2 < 6 → (if n > 13 ∧ n ≤ 1024 then ssePairSearch n sseAllButterflies (0, 0) else (0, 0)).1 = 0) →
        ∀ g : PrimeFactors, g.WF → 1 < g.n → g.n * 2 ≤ n →
-         ∃ r, sseWithFactors (F + 2) g.n g = .ok r ∧ r.len = g.n) :
-    ∃ r, sseWithFactors (F + 4) n f = .ok r ∧ r.len = n := by
+         ∃ r, sseWithFactors (F + 2) g.n g = .ok r ∧ r.len = g.n ∧ Q r) :
+    ∃ r, sseWithFactors (F + 4) n f = .ok r ∧ r.len = n ∧ Q r := by
   subst hn
   rw [sseWithFactors]
   cases hbf : sseButterfly f.n with
-  | some r => exact ⟨r, rfl, (sseButterfly_spec _ _ hbf).1⟩
+  | some r => exact ⟨r, rfl, (sseButterfly_spec _ _ hbf).1, hQ.bfly _ _ hbf⟩
   | none =>
   simp only
   by_cases hp : f.isPrime = true
@@ -851,7 +883,7 @@ theorem sseWithFactors_step (F n : Nat) (f : PrimeFactors) (h : f.WF) (hn : f.n 
     have htz6 : 6 ≤ f.p2 := htz
     by_cases hr4 : f.others.isEmpty = true ∧ f.p3 < 2
     · rw [if_pos hr4]
-      exact sseRadix4_ok F f h (by simpa using hr4.1) hr4.2 htz6
+      exact sseRadix4_ok Q hQ F f h (by simpa using hr4.1) hr4.2 htz6
     · rw [if_neg hr4]
       obtain ⟨g, hrem, hgwf, hgn, hg1⟩ := h.removeFactors_two (by omega) hr4
       rw [hrem]
@@ -861,7 +893,7 @@ theorem sseWithFactors_step (F n : Nat) (f : PrimeFactors) (h : f.WF) (hn : f.n 
       simp only
       have h64 : 2 ^ 6 ≤ 2 ^ f.p2 := Nat.pow_le_pow_right (by omega) htz6
       have hsub := hSub hbf (fun _ => hr4) (fun hlt => by omega)
-      have := sseMixedRadix_ok (F + 2) pt g
+      have := sseMixedRadix_ok Q hQ (F + 2) pt g hptwf.pos hgwf.pos
         (hsub pt hptwf (by rw [hptn]; omega) (by rw [hptn, ← hgn]; nlinarith))
         (hsub g hgwf hg1 (by rw [← hgn]; nlinarith))
       rw [hptn, hgn] at this
@@ -886,9 +918,11 @@ theorem sseWithFactors_step (F n : Nat) (f : PrimeFactors) (h : f.WF) (hn : f.n 
       simp only
       obtain ⟨r1, hr1⟩ := Option.isSome_iff_exists.1 (sseAll_butterfly _ m1)
       obtain ⟨r2, hr2⟩ := Option.isSome_iff_exists.1 (sseAll_butterfly _ m2)
-      have := sseMixedRadix_ok (F + 2) fl fr
-        ⟨r1, by rw [hfln]; exact sseWithFactors_bfly _ _ _ _ hr1, by rw [hfln]; exact (sseButterfly_spec _ _ hr1).1⟩
-        ⟨r2, by rw [hfrn]; exact sseWithFactors_bfly _ _ _ _ hr2, by rw [hfrn]; exact (sseButterfly_spec _ _ hr2).1⟩
+      have := sseMixedRadix_ok Q hQ (F + 2) fl fr hflwf.pos hfrwf.pos
+        ⟨r1, by rw [hfln]; exact sseWithFactors_bfly _ _ _ _ hr1, by rw [hfln]; exact (sseButterfly_spec _ _ hr1).1,
+          hQ.bfly _ _ hr1⟩
+        ⟨r2, by rw [hfrn]; exact sseWithFactors_bfly _ _ _ _ hr2, by rw [hfrn]; exact (sseButterfly_spec _ _ hr2).1,
+          hQ.bfly _ _ hr2⟩
       rw [hfln, hfrn, m3] at this
       exact this
     · rw [if_neg hpair]
@@ -896,7 +930,7 @@ theorem sseWithFactors_step (F n : Nat) (f : PrimeFactors) (h : f.WF) (hn : f.n 
       rw [hpart]
       simp only
       have hsub := hSub hbf (fun h6 => by omega) (fun _ => by omega)
-      have := sseMixedRadix_ok (F + 2) lf rf
+      have := sseMixedRadix_ok Q hQ (F + 2) lf rf hlwf.pos hrwf.pos
         (hsub lf hlwf hl1 (by rw [← hmul]; nlinarith))
         (hsub rf hrwf hr1 (by rw [← hmul]; nlinarith))
       rw [hmul] at this
@@ -904,8 +938,9 @@ theorem sseWithFactors_step (F n : Nat) (f : PrimeFactors) (h : f.WF) (hn : f.n 
 
 /-! ### SSE: lengths `2^k` and `3·2^k` need only constant fuel -/
 
-theorem sseWithFactors_pow2 (F M k : Nat) (hk : M = 2 ^ k ∨ M = 3 * 2 ^ k) (f : PrimeFactors)
-    (h : f.WF) (hn : f.n = M) : ∃ r, sseWithFactors (F + 4) M f = .ok r ∧ r.len = M := by
+theorem sseWithFactors_pow2 (Q : Recipe → Prop) (hQ : SseClosed Q) (F M k : Nat)
+    (hk : M = 2 ^ k ∨ M = 3 * 2 ^ k) (f : PrimeFactors)
+    (h : f.WF) (hn : f.n = M) : ∃ r, sseWithFactors (F + 4) M f = .ok r ∧ r.len = M ∧ Q r := by
   have hMpos : 1 ≤ M := by
     have : 0 < 2 ^ k := Nat.pow_pos (by omega)
     rcases hk with e | e <;> omega
@@ -928,7 +963,7 @@ theorem sseWithFactors_pow2 (F M k : Nat) (hk : M = 2 ^ k ∨ M = 3 * 2 ^ k) (f 
       by_contra hc
       have : 3 ^ 2 ≤ 3 ^ f.p3 := Nat.pow_le_pow_right (by omega) (by omega)
       omega
-  apply sseWithFactors_step F M f h hn hMpos
+  apply sseWithFactors_step Q hQ F M f h hn hMpos
   · intro hp hbf
     exfalso
     have hpr : Nat.Prime M := hn ▸ h.isPrime_iff.1 hp
@@ -950,55 +985,69 @@ theorem sseWithFactors_pow2 (F M k : Nat) (hk : M = 2 ^ k ∨ M = 3 * 2 ^ k) (f 
       rcases hk with e | e <;> rcases this with rfl | rfl | rfl | rfl | rfl | rfl <;>
         subst e <;> revert hbf hB' <;> decide
 
-theorem sseForLen_pow2 (F M k : Nat) (hk : M = 2 ^ k ∨ M = 3 * 2 ^ k) :
-    ∃ r, sseForLen (F + 5) M = .ok r ∧ r.len = M := by
+theorem sseForLen_pow2 (Q : Recipe → Prop) (hQ : SseClosed Q) (F M k : Nat) (hk : M = 2 ^ k ∨ M = 3 * 2 ^ k) :
+    ∃ r, sseForLen (F + 5) M = .ok r ∧ r.len = M ∧ Q r := by
   have hMpos : 1 ≤ M := by
     have : 0 < 2 ^ k := Nat.pow_pos (by omega)
     rcases hk with e | e <;> omega
   obtain ⟨f, hf, hwf, hfn, _⟩ := compute_spec M (by omega)
   rw [sseForLen, if_neg (by omega), hf]
-  exact sseWithFactors_pow2 F M k hk f hwf hfn
+  exact sseWithFactors_pow2 Q hQ F M k hk f hwf hfn
 
 /-! ### the SSE planner never fails -/
 
-theorem sseWithFactors_ok : ∀ n, 1 ≤ n → ∀ F, 2 * n + 8 ≤ F → ∀ f : PrimeFactors, f.WF → f.n = n →
-    ∃ r, sseWithFactors F n f = .ok r ∧ r.len = n := by
+theorem sseWithFactors_ok (Q : Recipe → Prop) (hQ : SseClosed Q) :
+    ∀ n, 1 ≤ n → ∀ F, 2 * n + 8 ≤ F → ∀ f : PrimeFactors, f.WF → f.n = n →
+    ∃ r, sseWithFactors F n f = .ok r ∧ r.len = n ∧ Q r := by
   intro n
   induction n using Nat.strong_induction_on with
   | _ n ih =>
     intro h1 F hF f hwf hfn
     obtain ⟨F', rfl⟩ : ∃ F', F = F' + 4 := ⟨F - 4, by omega⟩
-    apply sseWithFactors_step F' n f hwf hfn h1
+    apply sseWithFactors_step Q hQ F' n f hwf hfn h1
     · intro hp hbf
-      have hn2 : 2 ≤ n := by
+      have hpr : Nat.Prime n := hfn ▸ hwf.isPrime_iff.1 hp
+      have hn33 : 33 ≤ n := by
         by_contra hc
-        have : n = 1 := by omega
-        subst this; revert hbf; decide
+        have := sse_prime_lt_33_bfly n (by omega) hpr
+        rw [hbf] at this; cases this
+      have hn2 : 2 ≤ n := by omega
       obtain ⟨rf, hrf, hrwf, hrn, _⟩ := compute_spec (n - 1) (by omega)
       rw [ssePrime, hrf]
       simp only
       split
       · obtain ⟨⟨k, hk⟩, _⟩ := bluesteinInnerLen_spec n (by omega)
         obtain ⟨F'', hF''⟩ : ∃ F'', F' + 2 = F'' + 5 := ⟨F' - 3, by omega⟩
-        obtain ⟨inner, hi, _⟩ := sseForLen_pow2 F'' (bluesteinInnerLen n) k hk
+        obtain ⟨inner, hi, hil, hqi⟩ := sseForLen_pow2 Q hQ F'' (bluesteinInnerLen n) k hk
         rw [hF'', hi]
-        exact ⟨_, rfl, rfl⟩
-      · obtain ⟨inner, hi, hil⟩ := ih (n - 1) (by omega) (by omega) (F' + 2) (by omega) rf hrwf hrn
+        have hbound := (bluesteinInnerLen_spec n (by omega)).2.1
+        exact ⟨_, rfl, rfl, hQ.bluesteins n inner hqi hn33 (by rw [hil]; exact hbound)⟩
+      · obtain ⟨inner, hi, hil, hqi⟩ := ih (n - 1) (by omega) (by omega) (F' + 2) (by omega) rf hrwf hrn
         rw [hi]
-        exact ⟨_, rfl, by simp only [Recipe.len]; omega⟩
+        have hil1 : inner.len + 1 = n := by omega
+        exact ⟨_, rfl, by simp only [Recipe.len]; omega,
+          hQ.raders inner hqi (by rw [hil1]; exact hpr) (by omega)⟩
     · intro _ _ _ g hgwf hg1 hgle
       exact ih g.n (by omega) (by omega) (F' + 2) (by omega) g hgwf rfl
 
-theorem sseForLen_ok (n F : Nat) (hF : 2 * n + 9 ≤ F) :
-    ∃ r, sseForLen F n = .ok r ∧ r.len = n := by
+theorem sseForLen_okQ (Q : Recipe → Prop) (hQ : SseClosed Q) (n F : Nat) (hF : 2 * n + 9 ≤ F) :
+    ∃ r, sseForLen F n = .ok r ∧ r.len = n ∧ Q r := by
   obtain ⟨F', rfl⟩ : ∃ F', F = F' + 1 := ⟨F - 1, by omega⟩
   rw [sseForLen]
   by_cases h1 : n < 1
-  · rw [if_pos h1]; exact ⟨_, rfl, rfl⟩
+  · rw [if_pos h1]
+    have : n = 0 := by omega
+    subst this
+    exact ⟨_, rfl, rfl, hQ.dft⟩
   · rw [if_neg h1]
     obtain ⟨f, hf, hwf, hfn, _⟩ := compute_spec n (by omega)
     rw [hf]
-    exact sseWithFactors_ok n (by omega) F' (by omega) f hwf hfn
+    exact sseWithFactors_ok Q hQ n (by omega) F' (by omega) f hwf hfn
+
+theorem sseForLen_ok (n F : Nat) (hF : 2 * n + 9 ≤ F) :
+    ∃ r, sseForLen F n = .ok r ∧ r.len = n := by
+  obtain ⟨r, h1, h2, _⟩ := sseForLen_okQ _ SseClosed.trivial n F hF
+  exact ⟨r, h1, h2⟩
 
 /-! ## More fuel never changes a successful result -/
 
